@@ -783,8 +783,43 @@ def check_record_layout(ck, rule, prog, wbody, rbody, owner_rx, label, reader_in
             used, _e = R.bytes_of_operand(a, (bi, len(rbody.blocks[bi].stmts)), include_ranges=True)
             for f in sorted(flds):
                 assoc.append((f, t.line, used))
+    # a value read through a SUB-SLICE of the input (`let tail = &bytes[n..n + 5]; tail[0]`) sits at base + index: the reader model does not
+    # rebase such reads, so the association of those fields is not decided (the bytes it would name are those of the base expression)
+    sub_calls = set()
+    for sbi_, st_ in rbody.calls():
+        if re.search(r"Index<std::ops::Range(Inclusive)?<usize>>", st_.callee.def_args or "") and st_.dest is not None and st_.dest.is_local():
+            alias = {st_.dest.local}
+            grow = True
+            while grow:
+                grow = False
+                for _, s2 in rbody.stmts():
+                    if s2.k == "assign" and s2.place.is_local() and s2.place.local not in alias:
+                        src_ = s2.rv["op"].place if s2.rv["k"] == "use" else s2.rv["place"] if s2.rv["k"] == "ref" else None
+                        if src_ is not None and src_.local in alias and not [e for e in src_.fields() if e != "*"]:
+                            alias.add(s2.place.local)
+                            grow = True
+            indexed = False
+            for _, s2 in rbody.stmts():
+                for o_ in (s2.ops or []):
+                    if o_.place is not None and o_.place.local in alias and any(e != "*" and e[0] in ("idx", "cidx") for e in o_.place.fields()):
+                        indexed = True
+            if indexed:
+                sub_calls.add(sbi_)
+
+    def via_subslice(op):
+        if op is None or op.place is None or not sub_calls:
+            return False
+        return any(a[0] == "call" and a[3] == rbody.id and a[4] in sub_calls for a in pvi.of_operand(rbody, op))
+    rebased = set()
+    for fld, bb, st in field_stores(prog, rbody, owner_rx):
+        ops_ = list(st.ops[:1]) + [rbody.blocks[sb].term.discr for sb, tg in R.guard_edges(bb)]
+        if any(via_subslice(o) for o in ops_):
+            rebased.add(fld)
     for fld, line, used in assoc:
         if not used:
+            continue
+        if fld in rebased:
+            ck.undecided(rule, "%s/field/%s" % (label, fld), "%s fills `%s` from a sub-slice of the input taken at a computed offset: the bytes behind it are not rebased by this rule" % (rbody.short, fld), where=rbody.where(line))
             continue
         wrong = []
         for k, name in sorted(used.items(), key=lambda kv: kv[1]):
